@@ -95,3 +95,40 @@ package l1infotreesync
 //@   ensures[rollup-exit-roots-from-that-block-on-dropped] result == nil ==> forall(i, int, rootHas(p.rollupExitTree.Tree)[i] == (old(rootHas(p.rollupExitTree.Tree))[i] && rootBlock(p.rollupExitTree.Tree)[i] < firstReorgedBlock))
 //@   ensures[halt-cleared-only-by-a-committed-reorg] p.halted != old(p.halted) ==> (result == nil && !p.halted && lastTx != old(lastTx) && txState(lastTx) == 1)
 //@   ensures[failed-reorg-keeps-halt] result != nil ==> p.halted == old(p.halted)
+
+// ---- block processing of the L1 info tree store (C07 all-or-nothing, C14 fail-stop, C11 leaf indices)
+//@ ghost var l1LastIndex int
+//@ func (p *processor) getLastIndex
+//@   trusted
+//@   sqltext "SELECT position FROM l1info_leaf ORDER BY block_num DESC, block_pos DESC LIMIT 1;"
+//@   modifies nothing
+//@   ensures result1 == nil ==> result0 == l1LastIndex
+
+//@ func processEventInitL1InfoRootMap
+//@   trusted
+//@   modifies stmtFail
+//@   ensures stmtFail == old(stmtFail) + ite(result == nil, 0, 1)
+
+//@ extern github.com/russross/meddler.Insert@l1infotreesync.(*processor).ProcessBlock (db, table, src)
+//@   modifies stmtFail
+//@   ensures stmtFail == old(stmtFail) + ite(result == nil, 0, 1)
+
+//@ func (p *processor) ProcessBlock
+//@   props C07 C14 C11
+//@   sqltext "INSERT INTO block (num, hash) VALUES ($1, $2)"
+//@   requires p != nil && p.db != nil && p.log != nil && p.l1InfoTree != nil && p.l1InfoTree.Tree != nil && len(p.l1InfoTree.zeroHashes) == 33 && p.rollupExitTree != nil && p.rollupExitTree.Tree != nil && len(p.rollupExitTree.zeroHashes) == 33 && p.l1InfoTree.Tree != p.rollupExitTree.Tree
+//@   requires lastTx < heapTop && len(block.Events) < 4294967295
+//@   requires rhtOK(rhtHas(p.l1InfoTree.Tree), rhtL(p.l1InfoTree.Tree), rhtR(p.l1InfoTree.Tree)) && rhtOK(rhtHas(p.rollupExitTree.Tree), rhtL(p.rollupExitTree.Tree), rhtR(p.rollupExitTree.Tree))
+//@   modifies heap
+//@   ensures[halted-refuses] old(p.halted) ==> result == sync.ErrInconsistentState && lastTx == old(lastTx) && p.halted
+//@   ensures[all-or-nothing] (!old(p.halted) && lastTx != old(lastTx)) ==> ((result == nil ==> txState(lastTx) == 1) && (result != nil ==> txState(lastTx) == 2))
+//@   ensures[no-transaction-no-success] (!old(p.halted) && lastTx == old(lastTx)) ==> result != nil
+//@   ensures[halts-only-with-inconsistency-error] p.halted != old(p.halted) ==> p.halted && result == sync.ErrInconsistentState
+//@   ensures[committed-only-if-every-statement-succeeded] result == nil ==> stmtFail == old(stmtFail)
+//@   ensures[leaf-indices-continue-the-stored-sequence] (result == nil && leafCalls != old(leafCalls)) ==> lastLeafIdx == (l1LastIndex + (leafCalls - old(leafCalls))) % 4294967296 || lastLeafIdx == (leafCalls - old(leafCalls) - 1) % 4294967296
+//@   loop 0 invariant p.halted == old(p.halted) && !p.halted && p.log == old(p.log) && p.log != nil && p.l1InfoTree == old(p.l1InfoTree) && p.l1InfoTree != nil && p.l1InfoTree.Tree != nil && len(p.l1InfoTree.zeroHashes) == 33 && p.rollupExitTree == old(p.rollupExitTree) && p.rollupExitTree != nil && p.rollupExitTree.Tree != nil && len(p.rollupExitTree.zeroHashes) == 33 && p.l1InfoTree.Tree != p.rollupExitTree.Tree
+//@   loop 0 invariant rhtOK(rhtHas(p.l1InfoTree.Tree), rhtL(p.l1InfoTree.Tree), rhtR(p.l1InfoTree.Tree)) && rhtOK(rhtHas(p.rollupExitTree.Tree), rhtL(p.rollupExitTree.Tree), rhtR(p.rollupExitTree.Tree))
+//@   loop 0 invariant stmtFail == old(stmtFail)
+//@   loop 0 invariant shouldRollback && tx != nil && lastTx == tx && tx != old(lastTx) && txState(tx) == 0
+//@   loop 0 invariant l1InfoLeavesAdded == leafCalls - old(leafCalls) && 0 <= l1InfoLeavesAdded && l1InfoLeavesAdded <= rangeindex + 1 && (initialL1InfoIndex == (l1LastIndex + 1) % 4294967296 || initialL1InfoIndex == 0)
+//@   loop 0 invariant leafCalls != old(leafCalls) ==> lastLeafIdx == (initialL1InfoIndex + l1InfoLeavesAdded - 1) % 4294967296
